@@ -128,6 +128,67 @@ theorem box_block_freed_once (sized : Bool) (inner : Ledger.Result) (h1 : inner.
 
 /-- Types without drop glue (`needs_drop::<T>() == false`): the guard does nothing, and there is
     nothing to release. -/
+theorem transparentLoop_spec (n : Nat) (elem : Nat → Outcome) :
+    ∀ (fuel count : Nat) (log : Log), count + fuel = n → log.constructed = List.range count →
+      log.dropped = [] → log.handed = [] →
+      let r := transparentLoop n elem fuel count log
+      (r.outcome = .ok ∧ r.log.constructed = List.range n ∧ r.log.handed = List.range n ∧ r.log.dropped = []) ∨
+      (∃ k, count ≤ k ∧ k < n ∧ elem k ≠ .ok ∧ r.outcome = elem k ∧ r.log.constructed = List.range k ∧
+        r.log.handed = [] ∧ r.log.dropped = (List.range k).reverse) := by
+  intro fuel
+  induction fuel with
+  | zero =>
+    intro count log h hc hd hh
+    have : count = n := by omega
+    subst this
+    left
+    simp [transparentLoop, hc, hd, hh]
+  | succ fuel ih =>
+    intro count log h hc hd hh
+    simp only [transparentLoop]
+    cases he : elem count with
+    | ok =>
+      simp only
+      have := ih (count + 1) { log with constructed := log.constructed ++ [count] } (by omega)
+        (by simp [hc, List.range_succ]) hd hh
+      rcases this with a | ⟨k, k1, k2, k3, k4, k5, k6, k7⟩
+      · exact Or.inl a
+      · exact Or.inr ⟨k, by omega, k2, k3, k4, k5, k6, k7⟩
+    | err =>
+      right
+      exact ⟨count, Nat.le_refl _, by omega, by simp [he], by simp [he], by simp [hc], by simp [hh], by simp [hd]⟩
+    | panic =>
+      right
+      exact ⟨count, Nat.le_refl _, by omega, by simp [he], by simp [he], by simp [hc], by simp [hh], by simp [hd]⟩
+
+/-- **In-place decoding of `#[repr(transparent)]` structs** (the derived `decode_into`, as repaired
+    for finding F6). For every number of fields, every failure position and kind: either all fields
+    are decoded and handed over, or decoding stopped at the first failing field `k` and exactly the
+    `k` fields already decoded are dropped — each once (in reverse order), nothing handed over. -/
+theorem transparent_ledger_balanced (n : Nat) (elem : Nat → Outcome) :
+    let r := transparentDecodeInto n elem
+    (r.outcome = .ok ∧ r.log.constructed = List.range n ∧ r.log.handed = List.range n ∧ r.log.dropped = []) ∨
+    (∃ k, k < n ∧ elem k ≠ .ok ∧ r.outcome = elem k ∧ r.log.constructed = List.range k ∧
+      r.log.handed = [] ∧ r.log.dropped.Perm r.log.constructed ∧ r.log.dropped.Nodup) := by
+  have := transparentLoop_spec n elem n 0 {} (by omega) rfl rfl rfl
+  rcases this with a | ⟨k, _, k2, k3, k4, k5, k6, k7⟩
+  · exact Or.inl a
+  · refine Or.inr ⟨k, k2, k3, k4, k5, k6, ?_, ?_⟩
+    · show (transparentDecodeInto n elem).log.dropped.Perm (transparentDecodeInto n elem).log.constructed
+      unfold transparentDecodeInto
+      rw [k7, k5]; exact List.reverse_perm _
+    · show (transparentDecodeInto n elem).log.dropped.Nodup
+      unfold transparentDecodeInto
+      rw [k7]; exact (List.reverse_perm _).nodup_iff.mpr List.nodup_range
+
+/-- The negation for the code as it was (finding F6, repaired in `/repo` bb8aee6): without the guards
+    a payload followed by a failing zero-sized field is constructed and never dropped. -/
+theorem transparent_unguarded_leaks :
+    (transparentUnguarded 2 (fun i => if i = 1 then .err else .ok) 2 0 {}).log.constructed = [0] ∧
+    (transparentUnguarded 2 (fun i => if i = 1 then .err else .ok) 2 0 {}).log.dropped = [] ∧
+    (transparentUnguarded 2 (fun i => if i = 1 then .err else .ok) 2 0 {}).log.handed = [] := by
+  decide
+
 theorem array_no_drop_glue (n : Nat) (elem : Nat → Outcome) : (arrayDecodeInto n elem false).log.dropped = [] := by
   have := arrayLoop_spec n elem false n 0 {} (by omega) rfl rfl rfl
   rcases this with ⟨_, _, _, d⟩ | ⟨k, _, _, _, _, _, _, d⟩
@@ -137,6 +198,7 @@ theorem array_no_drop_glue (n : Nat) (elem : Nat → Outcome) : (arrayDecodeInto
 /-! ### Non-vacuity -/
 example : summary (arrayDecodeInto 5 (fun i => if i = 3 then .panic else .ok) true) = "panic constructed=3 dropped=3 handed=0" := by decide
 example : summary (arrayDecodeInto 4 (fun _ => .ok) true) = "ok constructed=4 dropped=0 handed=4" := by decide
+example : summary (boxDecode true (transparentDecodeInto 2 (fun i => if i = 1 then .panic else .ok))) = "panic constructed=1 dropped=1 handed=0" := by decide
 example : summary (boxDecode true (arrayDecodeInto 2 (fun i => if i = 1 then .err else .ok) true)) = "err constructed=1 dropped=1 handed=0" := by decide
 
 end Scale.C10
